@@ -48,3 +48,213 @@ Proof.
   - destruct c; [discriminate|]. destruct (last _ 0 =? n); discriminate.
   - exfalso. exact (proj1 (program_not_panic c) e' Ep).
 Qed.
+
+(* ------------------------------------------------------------------------------------------ *)
+(* L4 and L5: the algorithms built from a decomposer and a sequence algorithm *)
+
+From Coq Require Import Permutation.
+From AV Require Import proofs.ListsProofs proofs.BitsProofs proofs.ProgramProofs proofs.C01Aux
+  proofs.BinaryProofs proofs.DictProofs proofs.PrimitiveProofs proofs.OptProofs.
+
+(* what FindChain must deliver for Execute to report no error *)
+Definition chain_for (n : Z) (o : outcome (list Z)) : Prop :=
+  exists c, o = Ok c /\ is_chain c /\ last c 0 = n.
+
+(* ... for every sort oracle: the only other outcome is the model's own refusal of an observed
+   order that is not a sorted permutation of its rebuilt sum (never with orc = None) *)
+Definition find_chain_ok (a : alg_cfg) (n : Z) (orc : sort_oracle) : Prop :=
+  chain_for n (find_chain a n orc) \/
+  (orc <> None /\ find_chain a n orc = Err ($"sortoracle")).
+
+(* the interface to C08: a sequence algorithm that always returns a chain containing the targets and
+   not exceeding the largest of them *)
+Definition seqalg_ok (s : seqalg) : Prop :=
+  forall ts, ts <> [] -> (forall t, In t ts -> 1 <= t) ->
+  exists c, find_sequence_alg s ts = Ok c /\ is_chain c /\ (forall t, In t ts -> In t c) /\
+            (forall x, In x c -> exists t, In t ts /\ x <= t).
+
+(* the interface to C09: a decomposer that represents x exactly with non-zero dictionary entries *)
+Definition decomp_ok (m : method) : Prop :=
+  forall x, (1 <= x)%N -> exists s, decompose m x = Ok s /\ Decomp.sum_int s = x /\
+                                    (forall t, In t s -> (1 <= D t)%N).
+
+(* --- SortByExponent --- *)
+
+Lemma insert_by_exponent_perm t : forall l, Permutation (insert_by_exponent t l) (t :: l).
+Proof.
+  induction l as [|u r IH]; cbn [insert_by_exponent]; [reflexivity|].
+  destruct (E u <? E t)%N; [|reflexivity].
+  apply perm_trans with (u :: t :: r); [constructor; exact IH|apply perm_swap].
+Qed.
+
+Lemma sort_by_exponent_perm s : Permutation (sort_by_exponent s) s.
+Proof.
+  unfold sort_by_exponent. induction s as [|t r IH]; cbn [fold_right]; [constructor|].
+  apply perm_trans with (t :: fold_right insert_by_exponent [] r); [apply insert_by_exponent_perm|now constructor].
+Qed.
+
+Lemma insert_by_exponent_nondec t : forall l,
+  nondecreasing_e (conv_sum l) = true -> nondecreasing_e (conv_sum (insert_by_exponent t l)) = true.
+Proof.
+  induction l as [|u r IH]; intros H; [reflexivity|]. cbn [insert_by_exponent].
+  destruct (E u <? E t)%N eqn:Eut.
+  - apply N.ltb_lt in Eut. destruct r as [|w r'].
+    + cbn [insert_by_exponent conv_sum map]. rewrite nondec_unfold. cbn [conv_term snd nondecreasing_e].
+      rewrite andb_true_r. apply N.leb_le. lia.
+    + cbn [conv_sum map] in H. rewrite nondec_unfold in H. apply andb_true_iff in H. destruct H as [H1 H2].
+      specialize (IH H2). cbn [insert_by_exponent] in *. destruct (E w <? E t)%N eqn:Ewt.
+      * cbn [conv_sum map] in *. rewrite nondec_unfold, IH, andb_true_r. exact H1.
+      * cbn [conv_sum map] in *. rewrite nondec_unfold, IH, andb_true_r. cbn [conv_term snd]. apply N.leb_le. lia.
+  - apply N.ltb_ge in Eut. cbn [conv_sum map] in *. rewrite nondec_unfold, H, andb_true_r.
+    cbn [conv_term snd]. now apply N.leb_le.
+Qed.
+
+Lemma sort_by_exponent_nondec s : nondecreasing_e (conv_sum (sort_by_exponent s)) = true.
+Proof.
+  unfold sort_by_exponent. induction s as [|t r IH]; cbn [fold_right]; [reflexivity|].
+  now apply insert_by_exponent_nondec.
+Qed.
+
+(* --- Sum.Int in both models --- *)
+
+Lemma term_int_conv t : Dict.term_int (conv_term t) = Z.of_N (Decomp.term_int t).
+Proof.
+  rewrite term_int_eq. unfold Decomp.term_int, conv_term. cbn [fst snd].
+  rewrite N.shiftl_mul_pow2, N2Z.inj_mul, N2Z.inj_pow. reflexivity.
+Qed.
+
+Lemma sum_int_conv_fold : forall s a,
+  Z.of_N (fold_left (fun acc t => (acc + Decomp.term_int t)%N) s a) = Z.of_N a + tsum (conv_sum s).
+Proof.
+  unfold conv_sum. induction s as [|t r IH]; intros a; cbn [fold_left map tsum]; [lia|].
+  rewrite IH, N2Z.inj_add, term_int_conv. lia.
+Qed.
+
+Lemma sum_int_conv s : tsum (conv_sum s) = Z.of_N (Decomp.sum_int s).
+Proof. unfold Decomp.sum_int. rewrite sum_int_conv_fold. lia. Qed.
+
+Lemma term_le_tsum : forall l t, (forall u, In u l -> 0 < fst u) -> In t l -> fst t <= tsum l.
+Proof.
+  induction l as [|u r IH]; intros t Hpos Ht; [destruct Ht|]. cbn [tsum].
+  assert (0 <= tsum r) by (apply tsum_nonneg; intros v Hv; specialize (Hpos v (or_intror Hv)); lia).
+  pose proof (Hpos u (or_introl eq_refl)) as Hu.
+  rewrite term_int_eq. assert (0 < 2 ^ Z.of_N (snd u)) by (apply Z.pow_pos_nonneg; lia).
+  destruct Ht as [->|Ht]; [nia|].
+  assert (fst t <= tsum r) by (apply IH; [intros v Hv; apply Hpos; now right|exact Ht]). nia.
+Qed.
+
+(* --- Sum.Dictionary --- *)
+
+Lemma dictionary_Z s : map Z.of_N (dictionary s) = unique (sort (map (fun t => Z.of_N (D t)) s)).
+Proof.
+  unfold dictionary. rewrite map_map. rewrite <- (map_id (unique (sort _))) at 2.
+  apply map_ext_in. intros z Hz. apply unique_In, sort_In, in_map_iff in Hz. destruct Hz as (t & <- & _).
+  rewrite N2Z.id. reflexivity.
+Qed.
+
+Lemma dictionary_In s z : In z (map Z.of_N (dictionary s)) <-> exists t, In t s /\ Z.of_N (D t) = z.
+Proof.
+  rewrite dictionary_Z, unique_In, sort_In, in_map_iff. split; intros (t & H1 & H2); exists t; auto.
+Qed.
+
+(* --- the common tail: primitive, dictsumchain, append, Sort, Unique --- *)
+
+Lemma reduce_and_build_ok sum c orc n :
+  is_chain c -> sum <> [] -> nondecreasing_e sum = true ->
+  (forall t, In t sum -> In (fst t) c) -> sum_int sum = n ->
+  (forall x, In x c -> x <= n) ->
+  (exists r, reduce_and_build sum c orc = Ok r /\ is_chain r /\ asc r /\ last r 0 = n) \/
+  (orc <> None /\ reduce_and_build sum c orc = Err ($"sortoracle")).
+Proof.
+  intros Hc Hne Hnd Hin Hn Hle. unfold reduce_and_build.
+  destruct (primitive_ok sum c orc Hc Hne Hnd Hin) as [([sum' c'] & E & Hpost)|(o & Eo & E)].
+  - left. rewrite E. cbn [obind fst snd]. destruct Hpost as (Hs & Hnd' & Hne' & Hc' & Hin' & Hsub).
+    cbn [fst snd] in *.
+    destruct (dictsumchain_ok sum' c' Hne' Hnd' (is_chain_closed_set c' Hc') Hin')
+      as (dc & Ed & Hcs & HV & Hdc & _ & _).
+    rewrite Ed. cbn [obind]. exists (unique (sort (c' ++ dc))). split; [reflexivity|].
+    destruct (sort_unique_chain _ Hcs) as [H1 H2]. split; [exact H1|]. split; [exact H2|].
+    rewrite Hs, Hn in *. apply sort_unique_last; [exact Hcs|exact HV|].
+    intros x Hx. apply in_app_iff in Hx. destruct Hx as [Hx|Hx]; [apply Hle, Hsub, Hx|apply Hdc, Hx].
+  - right. rewrite E. split; [congruence|reflexivity].
+Qed.
+
+(* L4 for dict.Algorithm *)
+Theorem dict_alg_ok m s : decomp_ok m -> seqalg_ok s -> forall n orc, 1 <= n ->
+  (exists c, dict_find_chain m s n orc = Ok c /\ is_chain c /\ asc c /\ last c 0 = n) \/
+  (orc <> None /\ dict_find_chain m s n orc = Err ($"sortoracle")).
+Proof.
+  intros Hm Hs n orc Hn. unfold dict_find_chain.
+  destruct (Hm (Z.to_N n) ltac:(lia)) as (sum0 & Ed & Hsum & HD). rewrite Ed. cbn [obind].
+  set (sum := sort_by_exponent sum0).
+  assert (Hperm : Permutation sum sum0) by apply sort_by_exponent_perm.
+  assert (HDs : forall t, In t sum -> (1 <= D t)%N) by (intros t Ht; apply HD; now apply (Permutation_in _ Hperm)).
+  assert (Hval : tsum (conv_sum sum) = n).
+  { rewrite (tsum_perm _ (conv_sum sum0)) by (apply Permutation_map; exact Hperm).
+    rewrite sum_int_conv, Hsum. lia. }
+  assert (Hne : sum <> []).
+  { intros E. rewrite E in Hval. cbn [conv_sum map tsum] in Hval. lia. }
+  assert (Hpos : forall u, In u (conv_sum sum) -> 0 < fst u).
+  { intros u Hu. apply in_map_iff in Hu. destruct Hu as (t & <- & Ht). cbn [conv_term fst]. specialize (HDs t Ht). lia. }
+  destruct (Hs (map Z.of_N (dictionary sum))) as (c & Ec & Hc & Hts & Hbound).
+  - destruct sum as [|t r] eqn:Es; [congruence|]. intros E.
+    assert (H : In (Z.of_N (D t)) (map Z.of_N (dictionary (t :: r)))) by (apply dictionary_In; exists t; split; [now left|reflexivity]).
+    rewrite E in H. destruct H.
+  - intros z Hz. apply dictionary_In in Hz. destruct Hz as (t & Ht & <-). specialize (HDs t Ht). lia.
+  - rewrite Ec. cbn [obind]. apply reduce_and_build_ok.
+    + exact Hc.
+    + intros E. apply Hne. destruct sum; [reflexivity|discriminate].
+    + apply sort_by_exponent_nondec.
+    + intros u Hu. apply in_map_iff in Hu. destruct Hu as (t & <- & Ht). cbn [conv_term fst].
+      apply Hts. apply dictionary_In. now exists t.
+    + rewrite sum_int_tsum. exact Hval.
+    + intros x Hx. destruct (Hbound x Hx) as (z & Hz & Hxz). apply dictionary_In in Hz. destruct Hz as (t & Ht & <-).
+      rewrite <- Hval. etransitivity; [exact Hxz|].
+      apply (term_le_tsum (conv_sum sum) (conv_term t) Hpos). apply in_map. exact Ht.
+Qed.
+
+(* L5: the optimisation wrapper keeps a chain a chain with the same end *)
+Theorem opt_ok a n orc : find_chain_ok a n orc -> find_chain_ok (AOpt a) n orc.
+Proof.
+  intros [(c & E & Hc & Hl)|[Ho E]]; unfold find_chain_ok, chain_for; cbn [find_chain]; rewrite E; cbn [obind].
+  - left. destruct (optimize_valid c Hc) as (c' & Eo & Hc' & _ & _ & Hl' & _).
+    exists c'. split; [exact Eo|]. split; [exact Hc'|]. congruence.
+  - right. split; [exact Ho|reflexivity].
+Qed.
+
+Theorem binary_ok n orc : 1 <= n -> find_chain_ok ABinary n orc.
+Proof.
+  intros Hn. left. destruct (rtl_ok n Hn) as (c & E & Hc & _ & Hl). exists c. cbn [find_chain]. auto.
+Qed.
+
+Theorem dict_ok m s n orc : decomp_ok m -> seqalg_ok s -> 1 <= n -> find_chain_ok (ADict m s) n orc.
+Proof.
+  intros Hm Hs Hn. destruct (dict_alg_ok m s Hm Hs n orc Hn) as [(c & E & Hc & _ & Hl)|H]; [left|right; exact H].
+  exists c. cbn [find_chain]. auto.
+Qed.
+
+(* a sequence algorithm used as a chain algorithm *)
+Theorem seq_ok s n orc : seqalg_ok s -> 1 <= n ->
+  (forall c, find_sequence_alg s [n] = Ok c -> asc c) -> find_chain_ok (ASeq s) n orc.
+Proof.
+  intros Hs Hn Hasc. left. destruct (Hs [n] ltac:(discriminate)) as (c & E & Hc & Hin & Hb).
+  - intros t [<-|[]]. exact Hn.
+  - exists c. cbn [find_chain]. split; [exact E|]. split; [exact Hc|].
+    (* the largest element of an ascending chain that contains n and is bounded by n *)
+    specialize (Hasc c E). destruct Hasc as [_ Hinc].
+    assert (Hne : c <> []) by (intros ->; destruct (Hin n (or_introl eq_refl))).
+    pose proof (inc_le_last c n Hinc (Hin n (or_introl eq_refl))).
+    destruct (Hb (last c 0) (last_In c Hne)) as (t & [<-|[]] & Ht). lia.
+Qed.
+
+(* find_chain_ok is exactly what makes Execute report a chain *)
+Theorem execute_ok a n orc : find_chain_ok a n orc ->
+  (exists r, execute a n orc = Ok r /\ res_err r = None /\ is_chain (res_chain r) /\ last (res_chain r) 0 = n /\
+             length (res_program r) = (length (res_chain r) - 1)%nat /\ evaluate (res_program r) = Ok (res_chain r)) \/
+  (orc <> None /\ execute a n orc = Ok (mkResult (Some ($"sortoracle")) [] [])).
+Proof.
+  intros [(c & E & Hc & Hl)|[Ho E]].
+  - left. destruct (execute_complete a n orc c E Hc Hl) as [p Hp]. exists (mkResult None c p).
+    split; [exact Hp|]. split; [reflexivity|]. exact (execute_sound a n orc _ Hp eq_refl).
+  - right. split; [exact Ho|]. unfold execute. rewrite E. reflexivity.
+Qed.
